@@ -328,7 +328,45 @@ def check_who_may_call(model, rep):
            'entered and the copy/add fallback is ' + ('' if wrong[3]['fallback'] else 'not ') + 'emitted; it must try `ndependents > 1`, `block before destination` before the in-place call and treat NotImplemented as fallback', statement='escape-order')
     body = fb
     txt = ' ; '.join(src(s) for s in body)
-    ok = 'value = self.compile(evaluable)' in txt and 'block.array_copy(out, value)' in txt and 'block.array_iadd(out, value)' in txt and "mode == 'assign'" in txt and "mode == 'iadd'" in txt and 'raise ValueError' in txt
+    # the fallback is followed for each mode: 'assign' copies, 'iadd' adds, anything else raises ValueError before a statement is emitted -
+    # wherever in the function the mode is validated
+    def mode_only(t):
+        return all(isinstance(n_, (ast.Compare, ast.BoolOp, ast.UnaryOp, ast.Not, ast.And, ast.Or, ast.Eq, ast.NotEq, ast.In, ast.NotIn, ast.Is, ast.IsNot, ast.Constant, ast.Tuple, ast.List, ast.Set, ast.Load))
+                   or (isinstance(n_, ast.Name) and n_.id == 'mode') for n_ in ast.walk(t))
+
+    def has_compile(stmts):
+        return any(isinstance(c, ast.Call) and src(c.func) == 'self.compile' for x in stmts for c in ast.walk(x))
+
+    def follow(stmts, m, ev):
+        for s_ in stmts:
+            if isinstance(s_, ast.If):
+                if mode_only(s_.test):
+                    taken = eval(compile(ast.Expression(body=s_.test), '<mode-test>', 'eval'), {'__builtins__': {}}, {'mode': m})
+                    r_ = follow(s_.body if taken else s_.orelse, m, ev)
+                elif has_compile(s_.body):
+                    r_ = follow(s_.body, m, ev)
+                elif has_compile(s_.orelse):
+                    r_ = follow(s_.orelse, m, ev)
+                else:
+                    r_ = None     # the escape test in early-return form, or a test that has nothing to do with the fallback
+                if r_:
+                    return r_
+            elif isinstance(s_, ast.Raise):
+                ev.append('raise ' + (src(s_.exc.func) if isinstance(s_.exc, ast.Call) else src(s_.exc) if s_.exc else ''))
+                return 'raise'
+            elif isinstance(s_, ast.Return):
+                return 'return'
+            else:
+                for c in ast.walk(s_):
+                    if isinstance(c, ast.Call) and method_name(c) in ('array_copy', 'array_iadd') and [src(a) for a in c.args] == ['out', 'value']:
+                        ev.append(method_name(c))
+        return None
+    seen = {}
+    for m_ in ('assign', 'iadd', 'something else'):
+        ev_ = []
+        follow(b.body, m_, ev_)
+        seen[m_] = ev_
+    ok = 'value = self.compile(evaluable)' in txt and seen['assign'] == ['array_copy'] and seen['iadd'] == ['array_iadd'] and seen['something else'] == ['raise ValueError']
     rep.ob('R02.3', b.key, b.where(ifs[0]), ok, 'the fallback copies (assign) or adds (iadd) the separately compiled value and rejects other modes' if ok else 'the copy/iadd fallback of compile_with_out changed', statement='fallback')
     blk = [c for c in calls_in(b.node) if method_name(c) == 'get_block_for_evaluable']
     ok = len(blk) == 1 and any(k.arg == 'block_id' and src(k.value).replace(' ', '') == 'builtins.max(evaluable_block_id,out_block_id)' for k in blk[0].keywords)
